@@ -56,7 +56,14 @@ mpd_protocol and/or mpd_client (src/ files only, never the existing tests) such 
    features; greeting versions old and new; application handles dropped or held without polling;
    alphabets with every ASCII control incl. DEL, quotes, backslashes, multi-byte and case-mapping
    oddities, strings dense in escapable characters, odd strings like "/" "." "+0" "null";
-   10^8..10^9 random names against table lookups.
+   10^8..10^9 random names against table lookups; BOTH build profiles (with debug assertions and
+   overflow checks, and a plain release build without either); a second, unrelated connection driven
+   on the same thread and in the same process (so thread-local or static state is exposed); real
+   wall-clock time passing (up to ~5 s per step) next to tokio's paused clock; every io::ErrorKind
+   for injected read/write errors and writes returning Ok(0); callers that give up (drop their
+   future) at any point; counters beyond 16 bits (300 000 requests / chunks); every decoded value
+   also formatted with {{:?}} and {{:#?}}; Tag::Other built from canonical and re-cased names; password
+   and no-password handshakes; NOT-stacks of 1000+ negations; clones and clone_from of everything.
    Your change must still slip through: think about what is NOT in that list. Make it depend on a
    conjunction of individually unremarkable conditions that the list does not cross with each other,
    on state that only an unusual but legitimate sequence of public-API calls reaches, on an
